@@ -294,6 +294,37 @@ func runC17(c *Ctx) {
 	})
 	c.rule("C17.O7", "Stop returns exactly when everything it counted has ended: "+waitGroupGrowthDoc, func() { c.waitGroupGrowth(4) })
 	c.rule("C17.X2", "every caller blocked on a batch is released at shutdown, whichever way the dispatcher leaves: "+verdictPerBatchDoc, func() { c.verdictPerBatch() })
+	c.rule("C17.X3", "a query that was taken is answered: the requesters behind ChainService.Peers, ConnectedCount, PeerByAddr and the rest wait for the reply without an escape once their send on s.query went through (C17.X1 counts one reply per case of handleQuery); so in peerHandler every path from the arm that received a query to the next round passes handleQuery - a received query dropped because the shutdown flag is already up leaves its requester blocked for good: the filter-header sync inside queryAllPeers, a rebroadcast, the work manager's peer subscription, and with them blockManager.Stop, broadcaster.Stop and ChainService.Stop", func() {
+		fn := c.fn("(*neutrino.ChainService).peerHandler")
+		qf := c.field("neutrino", "ChainService", "query")
+		hq := c.method("neutrino", "ChainService", "handleQuery")
+		var starts []start
+		ir.Instrs(fn, func(in ssa.Instruction) {
+			sel, ok := in.(*ssa.Select)
+			// the blocking select of the handler's loop; the non-blocking
+			// drain behind the loop runs after s.quit was closed, when no
+			// requester can be parked on the send any more (its select has
+			// the quit arm, and a closed channel wins over a send nobody waits for)
+			if !ok || !sel.Blocking {
+				return
+			}
+			for i, st := range sel.States {
+				if st.Dir != types.RecvOnly || !loadsField(qf)(st.Chan) {
+					continue
+				}
+				for _, rr := range ir.Refs(sel) {
+					if ex, isEx := rr.(*ssa.Extract); isEx && ex.Index == 0 {
+						for _, ib := range ir.IntEqBranches(ex) {
+							if ib.K == int64(i) {
+								starts = append(starts, atEdge(c, ib.Edge(), "a query was received at "+c.at(sel)))
+							}
+						}
+					}
+				}
+			}
+		})
+		c.mustFollowIter(fn, "a query was received", starts, callTo(hq), "s.handleQuery(state, qmsg)", nil, 1)
+	})
 	c.rule("C17.O8", "the batch manager notices a shutdown on every round: UtxoScanner.Stop waits for batchManager to return, and a round that finds the queue non-empty never reaches the wait on the condition variable; so every way round the manager's loop passes a poll of s.quit (a select with a <-s.quit arm) - left to the scan's own error value, a scan that fails for any other reason while requests remain queued sends the manager round and round, and Stop, and ChainService.Stop with it, never returns", func() {
 		fn := c.fn("(*neutrino.UtxoScanner).batchManager")
 		quit := c.field("neutrino", "UtxoScanner", "quit")
